@@ -191,7 +191,8 @@ func (b *ByteBuffer) SavedSlot(slot Slot) []byte {
 //
 // This call reduces the save area by slot.Length. Returns slot.Length.
 func (b *ByteBuffer) Discard(slot Slot) (discarded int) {
-	if slot.Length <= 0 {
+	if slot.Length <= 0 || slot.Index < 0 || slot.Length > b.si-slot.Index {
+		// not a slot of the save area
 		return 0
 	}
 
